@@ -68,3 +68,27 @@ spec fn methods_of(a: ast::Aidl) -> Seq<ast::Method> {
         _ => Seq::<ast::Method>::empty(),
     }
 }
+
+// all (method, argument) pairs of a file in source order (walk_args contract)
+spec fn args_upto(m: ast::Method, n: int) -> Seq<(ast::Method, ast::Arg)>
+    decreases n
+{
+    if n <= 0 { Seq::<(ast::Method, ast::Arg)>::empty() } else { args_upto(m, n - 1).push((m, m.args@[n - 1])) }
+}
+spec fn el_args(el: ast::InterfaceElement) -> Seq<(ast::Method, ast::Arg)> {
+    match el {
+        ast::InterfaceElement::Method(m) => args_upto(m, m.args@.len() as int),
+        ast::InterfaceElement::Const(_) => Seq::<(ast::Method, ast::Arg)>::empty(),
+    }
+}
+spec fn iface_args(els: Seq<ast::InterfaceElement>, n: int) -> Seq<(ast::Method, ast::Arg)>
+    decreases n
+{
+    if n <= 0 { Seq::<(ast::Method, ast::Arg)>::empty() } else { iface_args(els, n - 1) + el_args(els[n - 1]) }
+}
+spec fn args_of(a: ast::Aidl) -> Seq<(ast::Method, ast::Arg)> {
+    match a.item {
+        ast::Item::Interface(i) => iface_args(i.elements@, i.elements@.len() as int),
+        _ => Seq::<(ast::Method, ast::Arg)>::empty(),
+    }
+}
